@@ -91,11 +91,14 @@ func runC19(r *Report, p *Program) {
 // is kept for reference and no longer registered.
 func c19R2(h H) {
 	r := h.r
-	r.Rule("R2", "what is recorded does not depend on read segmentation, as a table (E10): clientHelloConn.Read evaluated on a connection delivering one record (5 header bytes, 6 body bytes) followed by 3 bytes of the next one, cut into reads in eight ways (all at once, inside the header, at the header boundary, inside the body, byte by byte): in every segmentation the parser is handed exactly the 6 body bytes exactly once and the connection is marked done", 1)
+	r.Rule("R2", "what is recorded does not depend on read segmentation, as a table (E10): clientHelloConn.Read evaluated on a connection delivering one record (5 header bytes, 6 body bytes) followed by 3 bytes of the next one, cut into reads in eight ways (all at once, inside the header, at the header boundary, inside the body, byte by byte): in every segmentation the parser is handed exactly the 6 body bytes exactly once and the connection is marked done; and tlsHelloListener.Accept gives every new connection an empty accumulation buffer (a pooled one is emptied first)", 2)
 	bad, n := c19R2Table(h)
 	var pos token.Pos
 	if fn := h.p.Func(hs, "(*clientHelloConn).Read"); fn != nil {
 		pos = fn.Pos()
+	}
+	if ab := c19AcceptTable(h); true {
+		r.Check(ab == "", "R2", "httpserver.(*tlsHelloListener).Accept/buffer-starts-empty", pos, "every new connection accumulates its ClientHello in an empty buffer", ab)
 	}
 	r.Check(bad == "", "R2", "httpserver.(*clientHelloConn).Read/segmentation-table", pos, "the ClientHello handed to the parser is the same however the peer's bytes were split across reads", sprintf("%d segmentations evaluated", n), bad)
 }
